@@ -78,4 +78,20 @@ ExportOK == Export =>
    /\ (Len(calls) = 0 => \A uf \in UFs : PrintT(<<"UFT", uf, Terms(uf)>>))
    /\ (Len(calls) = MaxCalls => /\ PrintT(<<"UFC", calls>>)
                                /\ \A i \in 1..Len(calls) : results[i] = Terms(calls[i][1]))
+---------------------------------------------------------------------------
+(* Merging uncertainty factors (DR_Event.add(..., uf_reds, method)).  A     *)
+(* category's factors (rigid, elastic, dynamic, static) are updated entry   *)
+(* by entry: None keeps the old value, 'replace' takes the new one,          *)
+(* 'multiply' the product - a factor of exactly 0 is a value like any other  *)
+(* (it switches a part off), not "no value".  Factors are tenths.            *)
+NoneV == 0 - 1
+OldVals == {10, 12, 25}
+NewVals == {NoneV, 0, 10, 15}
+MergeOne(o, n, method) == IF n = NoneV THEN o * 10 ELSE IF method = "replace" THEN n * 10 ELSE o * n       \* result in hundredths
+MergeLaws == \A o \in OldVals, n \in NewVals :
+   /\ MergeOne(o, NoneV, "multiply") = o * 10 /\ MergeOne(o, NoneV, "replace") = o * 10
+   /\ MergeOne(o, 0, "multiply") = 0 /\ MergeOne(o, 0, "replace") = 0
+   /\ MergeOne(o, 10, "multiply") = o * 10
+ExportMerge == (Export /\ Len(calls) = 0) =>
+   PrintT(<<"MERGE", {<<o, n, m, MergeOne(o, n, m)>> : o \in OldVals, n \in NewVals, m \in {"replace", "multiply"}}>>)
 =============================================================================
